@@ -25,7 +25,17 @@ func NewNeighborhood(senderCreator application.SenderCreator, hostIp string, hos
 	neighborhood.senderCreator = senderCreator
 	neighborhood.hostTarget = NewTarget(hostIp, hostPort)
 	neighborhood.maxOutboundsCount = maxOutboundsCount
-	neighborhood.scoresBySeedTargetValue = scoresBySeedTargetValue
+	neighborhood.scoresBySeedTargetValue = map[string]int{}
+	for seedTargetValue, score := range scoresBySeedTargetValue {
+		seedTarget, err := NewTargetFromValue(seedTargetValue)
+		if err != nil {
+			continue
+		}
+		knownScore, isSeedAlreadyKnown := neighborhood.scoresBySeedTargetValue[seedTarget.Value()]
+		if !isSeedAlreadyKnown || knownScore < score {
+			neighborhood.scoresBySeedTargetValue[seedTarget.Value()] = score
+		}
+	}
 	neighborhood.scoresByTargetValue = map[string]int{}
 	neighborhood.watch = watch
 	return neighborhood
@@ -35,14 +45,14 @@ func (neighborhood *Neighborhood) AddTargets(targetValues []string) {
 	neighborhood.scoresByTargetValueMutex.Lock()
 	defer neighborhood.scoresByTargetValueMutex.Unlock()
 	for _, targetValue := range targetValues {
-		_, isTargetAlreadyKnown := neighborhood.scoresByTargetValue[targetValue]
 		target, err := NewTargetFromValue(targetValue)
 		if err != nil {
 			continue
 		}
+		_, isTargetAlreadyKnown := neighborhood.scoresByTargetValue[target.Value()]
 		isTargetOnSameNetwork := neighborhood.hostTarget.IsSameNetworkId(target)
 		if !isTargetAlreadyKnown && isTargetOnSameNetwork {
-			neighborhood.scoresByTargetValue[targetValue] = 0
+			neighborhood.scoresByTargetValue[target.Value()] = 0
 		}
 	}
 }
@@ -54,6 +64,10 @@ func (neighborhood *Neighborhood) HostTarget() string {
 func (neighborhood *Neighborhood) Incentive(targetValue string) {
 	neighborhood.scoresByTargetValueMutex.Lock()
 	defer neighborhood.scoresByTargetValueMutex.Unlock()
+	target, err := NewTargetFromValue(targetValue)
+	if err == nil {
+		targetValue = target.Value()
+	}
 	neighborhood.scoresByTargetValue[targetValue] += 1
 }
 
